@@ -18,10 +18,11 @@ ASSUMPTIONS = ['from-scratch in-memory compile of the same specification is the 
                'only constant cells are written (one at a time, as an address list with a value list, and as a range with a matrix); set_as_range=True is outside the alphabet',
                'canonical key lists every field later operations read; on introspection failure histories are not merged']
 
-VALUES_QUICK = [7, 0, False, None, 't', True, 1, 2.5, 2.500001]
+VALUES_QUICK = [7, 0, False, None, 't', True, 1, 2.5, 2.5000000000000004, 1e-9]     # 2.5 and its neighbour double; 0 and a tiny number
 VALUES_THOROUGH = [7, 0, 1, 2.5, 't', '', True, False, None, 1.000001, 1e-9, 7.00001, 2.500001, 0.0]
-ORIGINS = ['inmem', 'inmem-warm', 'inmem-warm2', 'xlsx', 'xlsx-warm', 'xlsx-warm2', 'yml', 'json', 'pkl']
+ORIGINS = ['inmem', 'inmem-part', 'inmem-warm', 'inmem-warm2', 'xlsx', 'xlsx-part', 'xlsx-warm', 'xlsx-warm2', 'yml', 'json', 'pkl']
 VALUES_SMALL = [7, None, False, 0]
+DEEP = ('chain', 'fan_range', 'nested', 'range_of_formulas', 'unbounded', 'cse_out', 'overlap', 'triangle')
 THREADED = ('chain', 'diamond', 'fan_range', 'unbounded', 'cse_out', 'names', 'range_of_formulas')
 
 
@@ -120,6 +121,13 @@ class P(explore.Problem):
         else:
             m = ExcelCompiler.from_file(self.path)
         assign = {}
+        if self.origin.endswith('-part'):
+            # a partly loaded model: only the first formula cell (and what it needs) has been compiled and evaluated
+            for a in W.formula_cells(self.spec)[:1]:
+                try:
+                    m.evaluate(a)
+                except Exception:
+                    pass
         if self.origin.endswith('-warm') or self.origin.endswith('-warm2'):
             # every cell built and evaluated before the explored history starts (not counted in the depth)
             for a in self.fam['cells']:
@@ -288,6 +296,7 @@ def work(job):
         res = explore.bfs(p, depth, acc, max_states=max_states, shard=shard)
         acc.add('states', res['states'])
         acc.add('transitions', res['transitions'])
+        acc.add('transitions_' + origin + f'_d{depth}', res['transitions'])
         acc.add('evaluations', res['transitions'])
         acc.add('traces_validated_against_impl', res['transitions'])
         acc.add('distinct_nontrivial', p.invalidating)
@@ -327,14 +336,26 @@ def run(ctx):
         for f in fams:
             jobs.append((f, 'inmem', VALUES_SMALL, 3, 8000))
             # the full value alphabet on the first two inputs (all inputs get the small alphabet in the cold job)
+            # (the first input with the full alphabet; the first two together with the small one)
             f2 = dict(f, inputs=f['inputs'][:2]) if len(f['inputs']) > 2 else f
-            jobs.append((f2, 'inmem-warm', VALUES_QUICK, 3, 8000))
+            jobs.append((dict(f, inputs=f['inputs'][:1]), 'inmem-warm', VALUES_QUICK, 3, 8000))
+            if len(f['inputs']) > 1:
+                jobs.append((f2, 'inmem-warm', VALUES_SMALL, 3, 8000))
             jobs.append((f, 'inmem-warm2', VALUES_SMALL, 2, 8000))
-            jobs.append((f, 'xlsx', [7, None], 3, 8000))
+            jobs.append((f, 'xlsx', [7, None, True, False], 3, 8000))      # TRUE / FALSE: the logical twins of stored 1 / 0
             jobs.append((f, 'xlsx-warm', VALUES_SMALL, 2, 8000))
+            # partly loaded file model: later loads meet stored results after the writes (TRUE / FALSE: twins of stored 1 / 0)
+            jobs.append((dict(f, inputs=f['inputs'][:2]), 'xlsx-part', [7, True, False], 3, 8000))
             jobs.append((f, 'xlsx-warm2', [7, None], 2, 8000))
             for o in ('yml', 'json', 'pkl'):
-                jobs.append((f, o, VALUES_SMALL + [2.5, 2.500001], 3 if o == 'yml' else 2, 8000))
+                jobs.append((f2 if o == 'yml' else f, o, VALUES_SMALL + [2.5, 2.5000000000000004], 3 if o == 'yml' else 2, 8000))
+            if f['name'] in DEEP:
+                # depth 4 with one input and two values: write, read, write again, read -- from a partly loaded
+                # and a fully loaded model
+                for i in f['inputs'][:1]:
+                    f1 = dict(f, inputs=[i])
+                    for o in ('inmem-part', 'inmem-warm'):
+                        jobs.append((f1, o, [7, 8], 4, 20000))
             if f['name'] in THREADED:
                 # every operation of the history placed on one of two threads (the model is built on the first)
                 f3 = dict(f, inputs=f['inputs'][:2])
@@ -344,7 +365,7 @@ def run(ctx):
     sharded = []
     for j in jobs:
         nops = len(j[0]['cells']) + len(j[0]['ranges']) + len(j[0]['unbounded']) + len(j[0]['inputs']) * len(j[2])
-        n = 1 if j[3] < 3 else (8 if nops > 40 else 4 if nops > 28 else 2 if nops > 20 else 1)
+        n = 1 if j[3] < 3 else 4 if j[3] >= 4 else (8 if nops > 40 else 4 if nops > 28 else 2 if nops > 20 else 1)
         for k in range(n):
             sharded.append(j + ((k, n),))
     jobs = sorted(sharded, key=lambda j: -(len(j[0]['inputs']) * len(j[2])) * j[3])
